@@ -3,13 +3,20 @@
 extract  : go/extract ApqProg re-translates MutateOperationParameters (+ pinned cache/hash bodies) -> Gen/ApqProg.lean;
            PostPool enumerates the return paths of every function of package transport that takes an object from a
            sync.Pool (get / use / put events, deferred calls where they run) -> Gen/PostPool.lean
+           DocFlow lists every place where package executor touches a parsed document (def / store / call / pass / write /
+           alias / ...) -> Gen/DocFlow.lean
 prove    : Props/C15 (all histories, all lawful caches, MapCache/NoCache/LRU(n) lawful) + Props/C15Gen (regenerated body = step)
            + Props/C15Pool (disciplined paths => no two requests in flight share a RawParams; the regenerated paths are disciplined)
+           + Props/C15Op (operationName: with any lawful document cache every request of every history executes the operation
+           a first-time server selects in the text the extension answered with; the regenerated document flow is read-only)
 tie      : real extension through graphql/executor with a recording cache around the real MapCache/NoCache/lru.New(n),
            with and without a parsed-document cache (+q): exhaustive histories over 3 texts x 6 request kinds, seeded random
            long histories with eviction, directed adversarial histories (harness + corpus/C15/histories.txt: layout siblings
            of one document sent with each other's hashes, weak-key collision pairs); the same tokens over HTTP (@http:
            handler.Server, POST with pooled params, GET) with undecodable bodies and pairs of requests in flight at once;
+           texts with several operations and an operationName per request (^name): exhaustive histories over a 16-kind
+           operation alphabet (register / hash only / text only x which operation), random operation-heavy histories,
+           directed ones, with a map / LRU(n) / no document cache (+q, +q<n>), also over HTTP;
            per-request outcome, executed document, cache calls and final contents compared with the model
 decide   : the Spec (Apq.specOk, proved to hold of the model for all inputs) is evaluated by the Lean driver on the
            implementation's own trace of EVERY history; a Spec failure is a concrete failing history (shrunk)
@@ -22,15 +29,18 @@ from concurrent.futures import ThreadPoolExecutor
 
 from lib import vf
 
-PROPS = ["GqlgenVerif.Props.C15", "GqlgenVerif.Props.C15Gen", "GqlgenVerif.Props.C15Pool"]
+PROPS = ["GqlgenVerif.Props.C15", "GqlgenVerif.Props.C15Gen", "GqlgenVerif.Props.C15Pool", "GqlgenVerif.Props.C15Op"]
 NALPHA = 18
 CORPUS = os.path.join(vf.VERIF, "corpus", "C15", "histories.txt")
-_RAW = re.compile(r"!raw=[^| ]*")
+_RAW = re.compile(r"!(raw|doc)=[^| ]*")
+_OPNAME = re.compile(r"\^([A-Za-z_]*)")
 
 
 def _for_spec(obs):
     """`!raw=` marks OperationContext.RawQuery differing from the text APQ left in the params: a divergence from
-    the model, but the rest of the observation (outcome, executed document, cache calls) is still judged by the Spec."""
+    the model, but the rest of the observation (outcome, executed document, cache calls) is still judged by the Spec.
+    `!doc=` likewise marks an executed operation whose accompanying document (OperationContext.Doc) is not the fresh
+    document of the text: WHICH operation of which text ran is what the Spec judges."""
     return _RAW.sub("", obs)
 
 
@@ -105,6 +115,7 @@ class Acc:
         self.unparsable = 0
         self.samples = []
         self.http = Counter()
+        self.opdim = Counter()
 
 
 def _process(acc, gen, tabs, runs, have_driver):
@@ -147,8 +158,25 @@ def _process(acc, gen, tabs, runs, have_driver):
                     break
         if "+q" in r[1]:
             acc.http["histories_with_document_cache"] += 1
+        # operation dimension: per hash, the operations executed so far out of the text registered for it
+        ran = {}
         for rq, ob in zip(reqs, obs):
             parts = ob.split("|")
+            if "^" in rq or (len(parts) == 3 and "." in parts[1]):
+                acc.opdim["requests_with_operationName_or_multi_operation_text"] += 1
+                if len(parts) == 3 and parts[1].startswith("x:") and "." in parts[1] and rq.count("/") == 2:
+                    unit = parts[1][2:]
+                    t, k = unit.split(".", 1)
+                    hash_only = rq.startswith("-/")
+                    seen = ran.setdefault(t, [])
+                    if hash_only and seen and seen[-1] != k:
+                        acc.opdim["hash_only_runs_other_operation_than_previous_request_of_that_text"] += 1
+                        if k.isdigit() and any(x.isdigit() and int(x) > int(k) for x in seen):
+                            acc.opdim["hash_only_runs_EARLIER_operation_after_a_later_one"] += 1
+                            nt = True
+                    seen.append(k)
+                elif len(parts) == 3 and parts[0].startswith("run:") and parts[1] == "x:-":
+                    acc.opdim["no_such_operation_or_rejected_text"] += 1
             c = _classify(rq, ob, added, final) if len(parts) == 3 and rq.count("/") == 2 else "unclassified"
             acc.branch[c] += 1
             if c.startswith(("hash-only:hit", "hash-only:miss-after", "mismatch:", "register:again")):
@@ -249,13 +277,15 @@ def run(ctx):
         "hashicorp/golang-lru (library) is modelled as a bounded recency list (Get refreshes, Add refreshes or evicts the oldest); tied by histories with eviction on lru.New(1..4)",
         "gqlparser parse/validate is a parameter `valid` of the model: which texts the executor accepts is taken from the harness's text table and checked against the mock ExecutableSchema's record of executed texts",
         "requests in flight at once: the pool discipline of POST.Do is regenerated and proved (Props/C15Pool: get use* put on every return path => no two requests share a RawParams, any interleaving); on the implementation only the interleavings 'both requests decoded before either passes APQ, then one after the other' (both decode orders) are forced, on one P with the collector off so that sync.Pool is deterministic; truly simultaneous execution inside the extension / the cache is not scheduled (the cache implementations' own thread-safety is outside C15)",
-        "which document Exec runs is observed through a signature of OperationContext.Doc (alias, name, first argument of the first field), independent of RawQuery; layout siblings of one document share a signature",
+        "which operation Exec runs is observed through a signature of OperationContext.Operation (its name; alias, name, first argument of its first selection), independent of RawQuery and of the operation's position in OperationContext.Doc; layout siblings of one document share signatures; a document that differs from the fresh parse of the text while the right operation runs is reported as a divergence (`!doc=`), not as a Spec failure",
+        "which operation a first-time server selects (gqlparser ForName on a fresh parse + validation) is taken from the harness's text table (operation names of a fresh parser.ParseQuery, `valid` flag) and modelled by ApqOp.forName; documents are immutable values in the model - that the executor only reads cached documents is the regenerated fact Gen/DocFlow (syntactic taint of *ast.QueryDocument values within package executor; writes inside gqlparser or by extensions are out of its sight and left to the tie)",
         "weak-key pairs: texts whose SHA-256 hex strings collide under FNV-1/1a-32, CRC-32, Adler-32 and 32-bit prefix/suffix truncation are found by birthday search at start-up; other lossy key transformations are not probed",
     ]
     ok_prog = ctx.extract("ApqProg")
     ok_pool = ctx.extract("PostPool")
-    ok_extract = ok_prog and ok_pool
-    proved = ctx.prove(props=[p for p, ok in zip(PROPS, (True, ok_prog, ok_pool)) if ok])
+    ok_flow = ctx.extract("DocFlow")
+    ok_extract = ok_prog and ok_pool and ok_flow
+    proved = ctx.prove(props=[p for p, ok in zip(PROPS, (True, ok_prog, ok_pool, ok_flow)) if ok])
     if not proved:
         ctx.cov["proof_failure"] = ctx.proof_failure
     have_driver = getattr(ctx, "driver_ok", False)
@@ -298,17 +328,26 @@ def run(ctx):
     else:
         for c in ("map", "map+q", "lru1", "lru2"):
             chunks.append((c, 4, ""))
+    # the operation alphabet (16 kinds: register / hash only / text only x operationName over texts with 3, 2, 1 operations)
+    if thorough:
+        for c in ("map+q", "lru1+q1", "lru2+q2", "map", "map+q1"):
+            chunks.append((c, 4, "", "exhop"))
+        for i in range(16):
+            chunks.append(("map+q", 5, str(i), "exhop"))
+    else:
+        for c in ("map+q", "lru1+q1"):
+            chunks.append((c, 4, "", "exhop"))
 
     def work(ch):
-        c, L, pre = ch
-        args = ["-mode", "exh", "-cache", c, "-len", L]
+        c, L, pre = ch[:3]
+        args = ["-mode", ch[3] if len(ch) > 3 else "exh", "-cache", c, "-len", L]
         if pre:
             args += ["-prefix", pre]
         return ch, _run_harness(hbin, args)
 
     with ThreadPoolExecutor(max_workers=3 if thorough else 4) as ex:
         for ch, (tb, rs) in ex.map(work, chunks):
-            _process(acc, "exhaustive-len%d" % ch[1], tb, rs, have_driver)
+            _process(acc, "exhaustive%s-len%d" % ("-operations" if len(ch) > 3 else "", ch[1]), tb, rs, have_driver)
 
     # ---- decide
     reported = set()
@@ -326,7 +365,8 @@ def run(ctx):
         # a proof obligation no longer checks and neither the Spec evaluation of every implementation trace
         # nor the correspondence produced a failing history
         ctx.violation({"kind": "proof", "failing": ctx.proof_failure,
-                       "note": "theorem(s) of Props/C15 or Props/C15Gen (regenerated body of MutateOperationParameters = Apq.step) no longer check; "
+                       "note": "theorem(s) of Props/C15, Props/C15Gen (regenerated body of MutateOperationParameters = Apq.step), Props/C15Pool "
+                               "or Props/C15Op (regenerated flow of the parsed document through package executor is read-only) no longer check; "
                                "no failing history found among %d histories" % acc.hist}, no_failing_input=True)
 
     ctx.cov.update({
@@ -345,6 +385,11 @@ def run(ctx):
                          "also in flight at once in both decode orders): length <=3 on map, 3 on lru1+q, "
                        + ("4 on map and lru1+q" if thorough else "a 1/8 sample of length 4 on map+q")),
         "http": dict(acc.http),
+        "operation_dimension": dict(acc.opdim),
+        "operation_alphabet_enumeration": "all histories over {text [A B C]: register x {A,B,C,none}, hash only x {A,B,C,none}, text only x {A,C}; "
+                                          "text [B A]: register / hash only x {A,B}; text [A]: register, hash only ^B}: length <=3 on map+q, lru1+q1, map, "
+                                          "lru2+q2, " + ("length 4 on map+q, lru1+q1, lru2+q2, map, map+q1, length 5 on map+q" if thorough else "length 4 on map+q, lru1+q1")
+                                          + "; over HTTP a 7-kind alphabet (with GET, pairs in flight at once) length 2-3 on map+q",
         "traces_validated_against_impl": acc.hist if have_driver else 0,
         "correspondence_divergences": len(acc.div),
         "spec_violations_on_implementation_traces": len(acc.specbad),
